@@ -1,5 +1,6 @@
 import Cose.Driver.ParseVal
 import Cose.Go.Labels
+import Cose.Key.TextForms
 /-! Line-protocol ops for `key.CoseMap` (C08, C05, C17). -/
 namespace Cose.Driver.MapOps
 open Cose.Driver Cose.Go Cose.Cbor
@@ -29,6 +30,24 @@ def opUnmarshal (args : List String) : String :=
         | none => "unmodelled"
   | _ => "bad-op"
 
+/-- `map.untext <hex>` / `map.unjson <hex>`: arbitrary octets given to `CoseMap.UnmarshalText` / `UnmarshalJSON`
+    (`Key/TextForms.lean`, the model `text_form_is_cbor_form` / `json_form_is_cbor_form` are stated over); answered
+    like `map.unmarshal`: the re-encoded map -/
+def opUnText (json : Bool) (args : List String) : String :=
+  match args with
+  | [h] =>
+    match unhex h with
+    | none => "bad-op"
+    | some t =>
+      match (if json then Cose.Key.TextForms.cmapUnmarshalJSON t else Cose.Key.TextForms.cmapUnmarshalText t) with
+      | .err => "err"
+      | .unmodelled => "unmodelled"
+      | .ok m =>
+        match encodeCMap m with
+        | some e => "ok " ++ hex e
+        | none => "unmodelled"
+  | _ => "bad-op"
+
 def labelStr : Label → String
   | .int i => "int:" ++ toString i
   | .text s => "t:" ++ hex s
@@ -45,6 +64,8 @@ def getMapOp (v : Option GoVal) : String :=
 def dispatch (op : String) (args : List String) : Option String :=
   match op with
   | "map.unmarshal" => some (opUnmarshal args)
+  | "map.untext" => some (opUnText false args)
+  | "map.unjson" => some (opUnText true args)
   -- the typed views (Headers, ClaimsMap, Key) are the same map as CoseMap: a specification the harness checks itself
   | "map.views" => some "same"
   | "map.tagkeep" => some "same"
